@@ -7,7 +7,7 @@ from vlib import dporacle, engine, gen, kal, params_model
 
 ID = "C07"
 RULE = ("Pairs (a, b) built from a planted alignment: b = a with substitutions, internal indels of length 1..40 and overhangs at "
-        "either end of either sequence; lengths 1..700 (quick) / 1..1500 (thorough), so both sides of the 500-column switch; "
+        "either end of either sequence (absolute 1..40 residues, or relative: half / once / twice the core length, i.e. suffix-prefix overlaps); lengths 1..700 (quick) / 1..1500 (thorough), so both sides of the 500-column switch; "
         "alphabets ACGT / 20 amino acids; all five alignment types (plus 'undefined') or explicit penalties (all three given, "
         "multiples of 0.5); groups of k, l in 1..3 identical copies (seq-seq, seq-profile, profile-profile kernels; which kernel "
         "decided is read from the DP hook events); threads 1..16; through kalign(). Oracle: independent full-matrix three-state "
@@ -49,9 +49,12 @@ def plant(seed, alpha, la, sub, nindel, maxindel, overhang):
         i += 1
     a = "".join(a)
     b = "".join(b) or rnd.choice(alpha)
+    if overhang < 0:
+        # overhang relative to the core: as long as / longer than the aligned part (suffix-prefix overlaps)
+        overhang = max(1, int(-overhang * max(1, la) / 2))
     for side in range(4):
         if overhang and rnd.random() < 0.3:
-            ext = "".join(rnd.choice(alpha) for _ in range(rnd.randint(1, overhang)))
+            ext = "".join(rnd.choice(alpha) for _ in range(rnd.randint(max(1, overhang // 2), overhang)))
             if side == 0:
                 a = ext + a
             elif side == 1:
@@ -67,17 +70,27 @@ def plant(seed, alpha, la, sub, nindel, maxindel, overhang):
 def cases(draw, tier):
     kind = draw(st.sampled_from(["dna", "protein"]))
     alpha = gen.NUC if kind == "dna" else gen.AA
-    mode = draw(st.sampled_from(["tiny", "planted", "planted", "planted", "long"]))
-    if mode == "tiny":
+    mode = draw(st.sampled_from(["tiny", "planted", "planted", "planted", "long", "overlap"]))
+    if mode == "overlap":
+        # suffix-prefix overlap: a short shared core, long overhangs on opposite ends (either sequence may be the longer one)
+        rnd = random.Random(draw(st.integers(0, 2 ** 32 - 1)))
+        core = "".join(rnd.choice(alpha) for _ in range(draw(st.integers(8, 60))))
+        x = "".join(rnd.choice(alpha) for _ in range(draw(st.integers(0, 150))))
+        y = "".join(rnd.choice(alpha) for _ in range(draw(st.integers(0, 150))))
+        core2 = "".join(c if rnd.random() > draw(st.sampled_from([0.0, 0.05, 0.15])) else rnd.choice(alpha) for c in core)
+        a, b = x + core, core2 + y
+        if draw(st.booleans()):
+            a, b = b, a
+    elif mode == "tiny":
         a = draw(st.text(alphabet=alpha, min_size=1, max_size=12))
         b = draw(st.text(alphabet=alpha, min_size=1, max_size=12))
     else:
         if mode == "long":
             la = draw(st.integers(480, 700 if tier == "quick" else 1500))
         else:
-            la = draw(st.integers(2, 400))
+            la = draw(st.one_of(st.integers(2, 400), st.integers(5, 60)))
         a, b = plant(draw(st.integers(0, 2 ** 32 - 1)), alpha, la, draw(st.sampled_from([0.0, 0.05, 0.15, 0.3])),
-                     draw(st.integers(0, 4)), draw(st.sampled_from([1, 3, 10, 40])), draw(st.sampled_from([0, 0, 5, 40])))
+                     draw(st.integers(0, 4)), draw(st.sampled_from([1, 3, 10, 40])), draw(st.sampled_from([0, 0, 5, 40, -1, -2, -4])))
     types = gen.DNA_TYPES if kind == "dna" else gen.PROT_TYPES
     t = draw(st.sampled_from(types))
     if draw(st.integers(0, 2)) == 0:
